@@ -3,6 +3,7 @@
 * This file is part of BitSerializer library, licensed under the MIT license.  *
 *******************************************************************************/
 #pragma once
+#include <cmath>
 #include <charconv>
 #include <limits>
 #include <stdexcept>
@@ -52,7 +53,16 @@ namespace BitSerializer::Convert::Detail
 			else
 			{
 				auto value = static_cast<TTarget>(sourceValue);
-				result = (static_cast<TSource>(value) == sourceValue) && !((value > 0 && sourceValue < 0) || (value < 0 && sourceValue > 0));
+				if constexpr (std::is_floating_point_v<TTarget>)
+				{
+					// The rounded value may be 2^N (just beyond the source range), casting it back would be undefined behaviour
+					result = value < std::ldexp(static_cast<TTarget>(1), std::numeric_limits<TSource>::digits)
+						&& static_cast<TSource>(value) == sourceValue;
+				}
+				else
+				{
+					result = (static_cast<TSource>(value) == sourceValue) && !((value > 0 && sourceValue < 0) || (value < 0 && sourceValue > 0));
+				}
 				if (result) {
 					targetValue = value;
 				}
